@@ -78,6 +78,8 @@ func (m *verifRWMutex) RUnlock() { m.Unlock() }
 
 type verifG struct {
 	name   string
+	parent string
+	ep     int // endpoint the goroutine currently works for (-1: none); children inherit it
 	gate   chan struct{}
 	site   string
 	parked bool
@@ -91,6 +93,7 @@ type verifScheduler struct {
 	byName map[string]*verifG
 	count  map[string]int
 	order  []*verifG
+	tlog   []string // site-level trace: P (released at a point), A (select arm taken), G (goroutine started), E (event)
 	free   bool // let everything run without parking (set when a scenario is torn down)
 }
 
@@ -128,7 +131,7 @@ func (s *verifScheduler) register(base string) *verifG {
 	if n > 0 || !isActorName(base) {
 		name = fmt.Sprintf("%s/%d", base, n)
 	}
-	g := &verifG{name: name, gate: make(chan struct{})}
+	g := &verifG{name: name, gate: make(chan struct{}), ep: -1}
 	s.gs[id] = g
 	s.byName[name] = g
 	s.order = append(s.order, g)
@@ -165,17 +168,67 @@ func verifPoint(site string) {
 	<-g.gate
 }
 
-// verifGo names the goroutine started by an instrumented go statement.
-func verifGo(site string, f func()) {
+// verifSelf: the registered name of the calling goroutine ("" when none).
+// Evaluated at an instrumented go statement, in the parent.
+func verifSelf() string {
+	s := verifCur()
+	if s == nil {
+		return ""
+	}
+	id := goid()
+	s.mu.Lock()
+	defer s.mu.Unlock()
+	if g, ok := s.gs[id]; ok {
+		return g.name
+	}
+	return ""
+}
+
+// verifGoP names the goroutine started by an instrumented go statement and
+// remembers who started it.
+func verifGoP(parent string, site string, f func()) {
 	s := verifCur()
 	if s == nil {
 		f()
 		return
 	}
-	s.register(site)
+	g := s.register(site)
+	s.mu.Lock()
+	g.parent = parent
+	if pg, ok := s.byName[parent]; ok {
+		g.ep = pg.ep
+	}
+	s.tlog = append(s.tlog, "G "+g.name+" "+parent)
+	s.mu.Unlock()
 	defer s.unregister()
 	verifPoint(site + ".start")
 	f()
+}
+
+// verifArm records which arm of a select the calling goroutine took.
+func verifArm(site string, arm int) {
+	s := verifCur()
+	if s == nil {
+		return
+	}
+	id := goid()
+	s.mu.Lock()
+	if g, ok := s.gs[id]; ok && !s.free {
+		s.tlog = append(s.tlog, fmt.Sprintf("A %d %s %s %d", g.ep, g.name, site, arm))
+	}
+	s.mu.Unlock()
+}
+
+// verifSetEp: harness actors say which endpoint they are working for.
+func verifSetEp(ep int) {
+	s := verifCur()
+	if s == nil {
+		return
+	}
+	g := s.register("anon:setep")
+	s.mu.Lock()
+	g.ep = ep
+	s.mu.Unlock()
 }
 
 // parkedList returns the parked goroutines sorted by name.
@@ -196,6 +249,7 @@ func (s *verifScheduler) release(g *verifG) {
 	s.mu.Lock()
 	g.parked = false
 	g.steps++
+	s.tlog = append(s.tlog, fmt.Sprintf("P %d %s %s", g.ep, g.name, g.site))
 	s.mu.Unlock()
 	g.gate <- struct{}{}
 }
